@@ -186,6 +186,21 @@ def run(chk):
                 chk.violation(f"C10|{e}|{ot}|decode-differs", f"{e}(output_type={ot}): decoding the matrix does not give the non-zero triplets",
                               {**meta, "output_type": ot, "decoded": str(back)[:1500], "want": str(want_back)[:1500]})
 
+    # ---- a capped search (max_returns) is not symmetric: the matrix forms hold exactly the triplets that the triplet form returns
+    star = ["CASSF", "CASSA", "CASSD", "CASSE", "CASSG", "CAQQQ"]
+    for mr_ in (1, 2):
+        for e_ in ("kdtree",):
+            tr_ = core.call_real(lambda: sorted((int(q_), int(r_), int(d_)) for q_, r_, d_ in fns[e_](star, max_edits=1, max_returns=mr_)))
+            for ot in ("coo_matrix", "ndarray"):
+                mt_ = core.call_real(lambda: fns[e_](star, max_edits=1, max_returns=mr_, output_type=ot))
+                chk.case(nontrivial_key=("capped-format", e_, ot, mr_))
+                got_ = None
+                if mt_[0] == "ok" and tr_[0] == "ok":
+                    dense_ = np.asarray(mt_[1].toarray() if ot == "coo_matrix" else mt_[1])
+                    got_ = sorted((int(q_), int(r_), int(dense_[r_, q_])) for r_ in range(dense_.shape[0]) for q_ in range(dense_.shape[1]) if dense_[r_, q_] != 0)
+                if tr_[0] != "ok" or got_ != tr_[1]:
+                    chk.violation(f"C10|{e_}|{ot}|capped-search-matrix", f"{e_}(max_returns={mr_}, output_type={ot}) does not hold exactly the triplets of the "
+                                  f"triplet form: {str(got_)[:200]} vs {str(tr_)[:200]}", {"xs": star, "max_returns": mr_, "output_type": ot})
     # ---- matrix formats with a NON-INTEGER custom distance: the value d itself must sit at [r, q]
     from Levenshtein import distance as levd
     half = lambda a, b: levd(a, b) / 2  # noqa
